@@ -117,6 +117,7 @@ int main(int argc, char **argv) {
     };
     auto describe = [&](uint64_t, uint64_t, uint64_t) { return std::make_pair(std::string("fp"), std::string("?")); };
     double t0 = vr::now_s();
+    A.has("out"); A.require_all_used();
     auto res = R.run(units.size(), work, describe);
     double wall = vr::now_s() - t0;
     FILE *o = A.has("out") ? fopen(A.get("out").c_str(), "w") : stdout;
